@@ -11,9 +11,10 @@ CONSTANTS
   FixedStar = TRUE
   FixedFinalInString = TRUE
   FixedNestedLiteral = TRUE
-  AnnChoices = {"noann", "int", "str", "QA", "OptInt", "ListInt", "T"}
+  BugBuiltinsFirst = FALSE
+  AnnChoices = {"noann", "int", "str", "QA", "QTE", "TE", "OptInt", "ListInt", "T"}
   DefaultChoices = {"none", "int:1", "None", "..."}
-  RetChoices = {"noann", "int", "QA", "None", "T"}
+  RetChoices = {"noann", "int", "QA", "QTE", "None", "T"}
   AsyncChoices = {FALSE, TRUE}
   FutureChoices = {FALSE, TRUE}
   DunderChoices = {FALSE, TRUE}
